@@ -735,7 +735,7 @@ Proof.
   - inversion Ha as [|? ? H0 _]; subst. unfold digit in H0. cbn [c10_touint]. rewrite val_cons, val_nil.
     change (2 ^ 32) with 4294967296. rewrite N.mod_small; lia.
   - inversion Ha as [|? ? H0 Ha']; subst. inversion Ha' as [|? ? H1 _]; subst. unfold digit in H0, H1.
-    cbn [c10_touint]. rewrite !val_cons, c10_bits_16, N.shiftl_mul_pow2.
+    cbn [c10_touint]. change c10_param_touint_bits with 32. rewrite !val_cons, c10_bits_16, N.shiftl_mul_pow2.
     change (2 ^ 32) with (65536 * 65536). change (2 ^ 16) with 65536.
     replace (d0 + 65536 * (d1 + 65536 * c10_val r)) with ((d1 * 65536 + d0) + c10_val r * (65536 * 65536)) by lia.
     rewrite N.mod_add by lia. reflexivity.
@@ -748,10 +748,14 @@ Proof.
   - cbn [repeat length]. repeat split.
     + constructor; [unfold digit; reflexivity|exact W].
     + rewrite L; reflexivity.
-    + rewrite val_cons, V, Bp_S. pose proof (Bp_pos n). change (2 ^ 16 - 1) with 65535. lia.
+    + rewrite val_cons, V, Bp_S. pose proof (Bp_pos n). change c10_param_max_digit with 65535. lia.
 Qed.
 Lemma min_spec n : wf (c10_min n) /\ length (c10_min n) = n /\ c10_val (c10_min n) = 0.
-Proof. unfold c10_min, c10_zero. split; [apply wf_repeat0|split; [apply repeat_length|apply val_repeat0]]. Qed.
+Proof.
+  unfold c10_min. change c10_param_lim_min_literal with 0.
+  destruct (assign_spec n 0) as (W & L & V); [reflexivity|]. split; [exact W|split; [exact L|]].
+  rewrite V. apply N.mod_0_l. pose proof (Bp_pos n). lia.
+Qed.
 
 (* ================= statements in the form used by Properties_C10.v ================= *)
 Lemma wf_of n a : c10_wf n a -> wf a /\ length a = n.
@@ -956,7 +960,10 @@ Qed.
 Lemma print_digit_fold d acc : d < 65536 ->
   fold_left (fun v c => v * 16 + c10_hexdigit_val c) (c10_print_digit d) acc = acc * 65536 + d.
 Proof.
-  intros Hd. unfold c10_print_digit. cbn [map fold_left].
+  intros Hd. unfold c10_print_digit.
+  change (rev (seq 0 (N.to_nat c10_param_hexdigits))) with [3; 2; 1; 0]%nat.
+  change c10_param_nibble_bits with 4. change c10_param_nibble_mask with 15.
+  cbn [map fold_left]. change (N.of_nat 3) with 3. change (N.of_nat 2) with 2. change (N.of_nat 1) with 1. change (N.of_nat 0) with 0.
   assert (L15 : forall y, N.land y 15 = y mod 16) by (intro y; change 15 with (N.ones 4); apply N.land_ones).
   rewrite !L15, !N.shiftr_div_pow2.
   rewrite !hexchar_roundtrip by (apply N.mod_lt; lia).
@@ -974,7 +981,8 @@ Proof.
     cbn [flat_map length rev]. rewrite fold_left_app, print_digit_fold by assumption.
     destruct (IH (acc * 65536 + d) Hr) as [V L]. rewrite V. split.
     + rewrite val_app, val_cons, val_nil, rev_length, Bp_S. lia.
-    + rewrite app_length, L. cbn. lia.
+    + rewrite app_length, L. unfold c10_print_digit. rewrite map_length, rev_length, seq_length.
+      change (N.to_nat c10_param_hexdigits) with 4%nat. cbn [length]. lia.
 Qed.
 
 Lemma P_print n a : c10_wf n a -> c10_hexval (c10_print a) = c10_val a /\ length (c10_print a) = (4 * n)%nat.
